@@ -102,9 +102,35 @@ def check_reset(reg, src, prop):
             reg.ground(pre + "integrator-is-new-with-current-settings#%d" % k, "post", "reset", fresh and kw.get("atol") is fields["_OdeSystem__atol"] and kw.get("rtol") is fields["_OdeSystem__rtol"]
                        and s.obj(integ).fields.get("final_rhs") is None and "dState" not in s.obj(integ).fields and "dTime" not in s.obj(integ).fields, backend="symbolic-exec",
                        detail="fresh integrator built by self.__method(self.dim, atol=..., rtol=...): no cached slopes, no controller memory, no dState/dTime carried over")
+            if fresh and isinstance(sol, Ref) and isinstance(yi, Ref) and isinstance(ev, Ref) and prop == PID:
+                RESET_SUMMARIES.append((dense, dict(counter=o["counter"], status=o["_OdeSystem__int_status"], n_events=len(s.obj(ev).items),
+                                                    sol=(solf.get("t_eval"), len(s.obj(yi).items)), integrator_kwargs=sorted(kw.keys()),
+                                                    carries_dState="dState" in s.obj(integ).fields)))
             changed = [k2 for k2, v2 in settings_before.items() if o.get(k2) is not v2 and not (z3.is_expr(v2) and z3.is_expr(o.get(k2)) and v2.eq(o.get(k2)))]
             reg.ground(pre + "settings-untouched#%d" % k, "frame", "reset", not changed, backend="symbolic-exec", detail="settings changed by reset: %r" % (changed,))
     return fi
+
+
+RESET_SUMMARIES = []
+
+
+def reset_vs_constructor(reg, init_records):
+    """Relational obligation over the two symbolic executions: every run-state attribute has the same shape after reset() as after the
+    constructor (same clause names are proved for both: trajectory = initial point, dt = the initial step oriented toward tf, fresh
+    empty DenseOutput, status 0, no events, new integrator from the settings).  The one deliberate difference is reported: the
+    constructor has evaluated the right-hand side once (shape probe, counted: nfev == 1), reset() zeroes the counter."""
+    def summary_init(r):
+        s, o = r["state"], r["fields"]
+        integ = s.obj(o["integrator"]).fields
+        return dict(counter=o["counter"], status=o["_OdeSystem__int_status"], n_events=len(s.obj(o["_OdeSystem__events"]).items),
+                    sol=(s.obj(o["_OdeSystem__sol"]).fields.get("t_eval"), len(s.obj(s.obj(o["_OdeSystem__sol"]).fields["y_interpolants"]).items)),
+                    integrator_kwargs=sorted(integ.get("kwargs", {}).keys()), carries_dState="dState" in integ)
+    for dense in (False, True):
+        inits = [summary_init(r) for r in init_records if r["dense"] is dense]
+        resets = [x for d, x in RESET_SUMMARIES if d is dense]
+        ok = bool(inits) and bool(resets) and all(a == b for a in inits for b in resets)
+        reg.ground("%s/OdeSystem.reset[dense=%s]/run-state-equals-what-the-constructor-builds" % (PID, dense), "post", "OdeSystem.reset", ok, backend="symbolic-exec (relational)",
+                   detail="constructor: %r; reset: %r" % (inits[:1], resets[:1]))
 
 
 def frame_completeness(reg, src):
@@ -170,6 +196,11 @@ def run(tier):
     R.add_registry(reg)
     try:
         R.under_contract(check_reset(reg, src, PID))
+        # what "the value __init__ gives it" is: the real constructor, executed symbolically, against the same clauses
+        from . import ctor
+        fi_init, init_records = ctor.check_ode_init(reg, src, PID)
+        R.under_contract(fi_init)
+        reset_vs_constructor(reg, init_records)
         frame_completeness(reg, src)
         aliasing_and_determinism(reg, src)
         for fi in IC.verify_helpers(src, reg, PID):
